@@ -201,7 +201,7 @@ func run(r *hk.Run) {
 	r.Header = "From ReqV Require Import Model.C07Run.\n"
 	r.CaseType = "c07_case"
 	r.CheckFn = "c07_check"
-	r.ShardSize = 110
+	r.ShardSize = 64
 	r.Rule = "h1: the stream is not a plain well-formed 200 response, or an optional stage is on, or a limit is set; stage: at least one wrapper layer or a non-default header value; parser: input is not a well-formed single entry"
 	cases := genCases(r.Seed, r.Quick())
 	t0 := time.Now()
